@@ -27,3 +27,8 @@ def run(tier):
     cov["exhaustive"] = False
     out.coverage = cov
     return out.finish()
+
+
+def replay_file(path):
+    from harness import replayfile
+    return replayfile.replay_term(path, "harness.modes:c08", "C08")
